@@ -229,8 +229,8 @@ CLAIMED['C17'] = dict(
 CONV_NOTE = BASE_TB + (' Decoding (DefaultModelInputConverter._to_parameter_value, one-hot un-embedding, label sign) is a hand-written model over exact '
   'rationals with +-inf/nan (Model/Conv.v) tied by correspondence; the scaling formulas and the should_clip defaults / call sites are '
   'regenerated from converters/core.py on every run by harness/translate/scalers.py (fail-closed) into coq/Gen/Scalers.v, and the theorems about '
-  'them are over Coq reals (classical real-number axioms of the standard library: sig_forall_dec, sig_not_dec, functional extensionality as '
-  'reported by Print Assumptions). float32/float64 rounding is not modelled: the harness allows the error that rounding the input to the '
+  'them are over Coq reals (classical real-number axioms of the standard library as reported by Print Assumptions under the C15 theorems: '
+  'ClassicalDedekindReals.sig_forall_dec, sig_not_dec, Classical_Prop.classic, FunctionalExtensionality.functional_extensionality_dep; the C03 theorems are over Q and closed). float32/float64 rounding is not modelled: the harness allows the error that rounding the input to the '
   'feature dtype forces through the scaler slope. GP designers (GP_UCB_PE, GAUSSIAN_PROCESS_BANDIT) cannot run here (equinox stand-in) and are '
   'covered only through their shared converter.')
 CLAIMED['C03'] = dict(
@@ -333,6 +333,21 @@ CLAIMED['C20'] = dict(
          'repaired by fix: commits.'),
    note=BASE_TB + ' harness/translate/exptrs.py regenerates coq/Gen/Exptrs.v (goal chain interpreted; other wrappers checked for their statement shapes). Relations against a stochastic (noisy) inner experimenter are not checked point by point.',
    technique='Rocq proof (equational reasoning over wrapper operators) + translator (mini-interpreter of the goal chain) + vm_compute correspondence + relation monitor', design='5/C20')
+# additions of the last session (regenerated models and theorems per property)
+EXTRA = {
+  'C03': ' A single-valued range is shifted to 0.5 and never divided by its width, by the dispatch of scaler_from_spec regenerated at every run (C03_source_singleton_range_is_not_divided; harness/translate/scaledispatch.py).',
+  'C11': ' The in-memory best-trial query (InRamPolicySupporter.GetBestTrials) is regenerated at every run (candidate tests, attributes read / written; harness/translate/besttrials.py): its candidates are exactly the successfully completed trials reporting every objective as a number, it reads only the current trials and the configuration and writes nothing, and the non-dominated candidates are exactly the set the property describes (C11_source_best_trials_candidates, _query_is_stateless, _exact). ListOptimalTrials reports only SUCCEEDED trials with every configured metric and no NaN objective (C11_service_reports_only_considered_trials; the NaN clause was a known finding until fix b8cd98b).',
+  'C13': ' GridSearchDesigner.dump / load are regenerated at every run (harness/translate/gridstate.py): a dump loaded into ANY fresh instance gives back the dumped instance, the grid ordering re-derived from the restored seed included (C13_source_grid_restart_exact).',
+  'C15': ' WHICH formula applies to which parameter is regenerated at every run from scaler_from_spec and ParameterConfig.continuify (harness/translate/scaledispatch.py): over a positive range the formula of the scale type, also for INTEGER / DISCRETE parameters turned into continuous ones; zero width shifted to 0.5; a log-type scale over a range touching 0 refused (C15_source_formula_follows_scale_type, C15_source_zero_width_is_shifted, C15_source_log_scale_refuses_nonpositive).',
+  'C16': ' The membership test of one parameter (assert_correct_type, _assert_feasible, contains; ParameterValue casts pinned) is regenerated at every run (harness/translate/membership.py) and its meaning is proved to be pc_contains (C16_source_membership_is_the_model).',
+  'C17': ' The auto-cast rule of add_discrete_param is regenerated at every run (harness/translate/autocast.py): INTEGER exactly when every feasible value is an integer, and a stored feasible value read through the declared type is that value (C17_source_autocast_is_the_rule, C17_source_discrete_value_presented_unchanged, C17_source_presented_as_int_iff_all_integral).',
+  'C18': ' A constant label array does not divide by the zero range in the log warper: every label maps to 1/2 and un-warps to itself, for the guard and formula in the source today (C18_log_warper_constant_labels).',
+}
+EXTRA['C04'] = ' The regenerated bodies of all 17 RPC handlers are the model\'s handler programs the interleaving theorems are about (C04_source_handlers_equal_the_model: stated as an equality, it is the one theorem of this file that uses the standard library\'s FunctionalExtensionality.functional_extensionality_dep).'
+EXTRA['C05'] = ' The regenerated bodies of all 17 RPC handlers are the model\'s handler programs the crash theorems are about (C05_source_handlers_equal_the_model: stated as an equality, it is the one theorem of this file that uses the standard library\'s FunctionalExtensionality.functional_extensionality_dep).'
+for _pid, _txt in EXTRA.items():
+  CLAIMED[_pid]['text'] = CLAIMED[_pid]['text'] + _txt
+CLAIMED['C11']['text'] = CLAIMED['C11']['text'].replace("one shard, NaN objectives reported by the service matrix.", "one shard, NaN objectives reported by the bare dominance matrix (the handler no longer considers such trials).")
 ALL = ['C%02d' % i for i in range(1, 21)]
 m = {
  'version': 1,
